@@ -10,9 +10,10 @@ def run_driver(chk, test, result_file, env, timeout=1500, race=True):
     t = vlib.go_test("region", "^%s$" % test, env=e, timeout=timeout, race=race)
     resf = os.path.join(wd, result_file)
     if "panic: " in t["out"] and not os.path.exists(resf):
-        m = re.search(r"panic: (.*)", t["out"])
-        # a panic inside the real client during a scenario: report with the output tail as replay
-        return wd, None, t
+        v = vlib.classify_panic(t["out"])
+        if v is None:
+            raise vlib.MachineryError("%s: the harness itself panicked:\n%s" % (test, t["out"][-3000:]))
+        return wd, dict(scenarios=0, distinct=0, events=0, samples=[], violations=[v]), t
     if not os.path.exists(resf):
         raise vlib.MachineryError("%s produced no result:\n%s" % (test, t["out"][-3000:]))
     res = json.load(open(resf))
